@@ -58,6 +58,10 @@ def letters_for_cfg(cfg):
         # scope bookkeeping needs longer histories (re-entering a name / an index that is already open)
         return [("cluster", "a"), ("cluster", "k"), ("index", 0), ("index", 1), ("leave",), ("add", "r", 1, None),
                 ("add", "s", dw + 1, None), ("raise_out",)]
+    if cfg.get("alphabet") == "huge":
+        # offsets beyond 2**53 (where a float can no longer hold every integer), odd ones included
+        return [("addp", dw, 2 ** 53 * ratio), ("addp", dw, (2 ** 53 + 1) * ratio), ("addp", dw, (2 ** 54 + 5) * ratio), ("addp", 2 * dw, None),
+                ("addp", dw, None), ("addp", 3 * dw, None), ("addp", 1, (2 ** 55 - 1) * ratio)]
     if cfg.get("alphabet") == "many":
         # long histories of valid additions (fresh positional names): 5+ registers, wide ones, explicit offsets in between
         return ([("addp", w, None) for w in (1, dw + 1, 3 * dw, 5 * dw)] + [("addp", 1, k * ratio) for k in (1, 6, 11)]
@@ -291,6 +295,8 @@ def configs(tier):
     out.append(dict(aw=4, dw=8, g=8, alphabet="scopes", depth=6 if tier == "quick" else 8))
     out.append(dict(aw=5, dw=8, g=8, alphabet="many", depth=5 if tier == "quick" else 7))
     out.append(dict(aw=5, dw=32, g=16, alphabet="many", depth=4 if tier == "quick" else 6))
+    out.append(dict(aw=56, dw=8, g=8, alphabet="huge", depth=3 if tier == "quick" else 4))
+    out.append(dict(aw=57, dw=16, g=8, alphabet="huge", depth=2 if tier == "quick" else 3))
     out.append(dict(aw=4, dw=8, g=8, alphabet="scopes", depth=4 if tier == "quick" else 6, bystander=True))
     out.append(dict(aw=3, dw=16, g=8, depth=2 if tier == "quick" else 3, bystander=True))
     if tier != "quick":
